@@ -20,6 +20,7 @@ REQUIRED = [
     # the tableau contract (all n, any commutative ring with LawfulAmp)
     "pauli_matrix_action", "normalize_preserves_stabilized", "apply_gate_stabilizes", "measure_random_sound",
     "collapse_sound", "deterministic_of_zrow", "reachable_sound", "tableau_contract_partial",
+    "detshape_core_no_anticentral",
     # finite, kernel-checked (n <= 2)
     "enum_card", "enum_is_closure", "exhaustive_gates_n2", "exhaustive_measure_n2", "exhaustive_reset_partial_n2",
     "exhaustive_canonical_n2", "equal_states_identical_tableau_n2", "history_independent_n2",
@@ -127,12 +128,19 @@ SPEC = {
             "operands, CX CY CZ Swap and all one-qubit gates, nesting depth 2; Kron in both factor orders and mixed arities, nested; Loop "
             "with 0..4 iterations) on every placement of every stabilizer state for n <= 2, of every state for n = 3 (arity <= 2 terms rotate "
             "over the states in quick), every 24th state for n = 4 (thorough); model side = tableau model driven by Model/Conj.lean "
-            "conjugateT; measure followed by collapse with the index the code itself reported (mcollapse). (A) Display text / MeasurementInfo / "
+            "conjugateT; measure followed by collapse with the index the code itself reported (mcollapse); (7) registers of 31,32,33,63,64,65,66,95,96,97,128 "
+            "(+129 thorough) qubits built through the real API (X/Y/Z on marked qubits for signs, then H/S/CX/CZ so that normalize moves rows and "
+            "their signs across the u64 word boundaries): every step, swap_rows / multiply_row across the boundaries, normalize of scrambled "
+            "tableaux, packed words; (8) StabilizerState::measure_into on a register word that is all ones beforehand (a measured 0 must clear "
+            "the bit), and measure; X; measure into the same bit (minto, minto2). (A) Display text / MeasurementInfo / "
             "panic site / error constructor equal the Lean model's; where the code draws random numbers the answer must be one the model "
             "allows. (B) for every request whose tableau describes a stabilizer state of <= 8 qubits (independent commuting rows; the "
             "exact state is computed over Z[zeta_8] by the projector method): the answer tableau must stabilize the exact state-vector "
             "result and be in reduced echelon form, det/rnd must match the block norms, peek_all words must have non-zero amplitude; for a combinator "
-            "term the exact result is (Spec.specMatrix of the term over Q(zeta_8), Spec.embed on the placement) * state. "
+            "term the exact result is (Spec.specMatrix of the term over Q(zeta_8), Spec.embed on the placement) * state; for "
+            "n > 8 (no state vector) the Pauli-group reference: the signed rows after swap / mul / normalize / gate must generate exactly the "
+            "group of the rows before, conjugated symbolically by the gate's documented matrix (M P M^H = +-P' searched over Q(zeta_8)); "
+            "minto/minto2: the stored bit must select a non-zero projection that the tableau stabilizes, other register bits untouched. "
             "Non-trivial = request on a tableau with an X or Y generator that returned, or any error/panic; distinct = distinct request line.",
     "exhaustive": False,
 }
